@@ -522,6 +522,9 @@ def run(prog, rep):
     rule_schema_extension(prog, rep)
     rule_const(prog, rep)
     rule_reserved(prog, rep)
+    # a document with a lexical error does not parse without errors: the lexer machine (C03.DFA)
+    from . import lexer_dfa
+    lexer_dfa.run(prog, rep)
     from . import parser_produce
 
     parser_produce.run(prog, rep)
